@@ -4,10 +4,11 @@ from pyscript import Op, V, NONE, vs
 
 NAMES = ['users', 'posts', 'orders', 'order items', 'Таблица', 'a', 'select', 'T1', 'x_y']
 COLNAMES = ['id', 'name', 'user_id', 'created at', 'b', 'status', 'ref', 'c1', 'c2', 'total']
-SCHEMAS = ['public', 'public', 'public', 'auth', 'my schema']
+SCHEMAS = ['public', 'public', 'public', 'auth', 'my schema', 'Public']
 TYPES = ['int', 'integer', 'varchar', 'varchar(255)', 'numeric(10, 2)', 'int[]', 'text', 'timestamp']
 ODD_TYPES = ['my type', 'double precision', 'a.b', 'a.b.c']
-NICE_TEXT = ['note', 'a longer note', 'x', 'some text here', 'line one\nline two', 'é 中 💸', 'tab\there']
+NICE_TEXT = ['note', 'a longer note', 'x', 'some text here', 'line one\nline two', 'é 中 💸', 'tab\there',
+             'a single line that is rather long: ' + 'lorem ipsum dolor sit amet ' * 6]
 NASTY_TEXT = ["it's", 'say "hi"', 'back\\slash', '`tick`', '{brace}', 'a\n\n  b', "'''", '//c', '/* c */', '  lead',
               'trail  ', '#', "x'", '{', '}', '{}', '{0}', '{c}', 'a\n b\n  c', '']
 ACTIONS = ['cascade', 'restrict', 'set null', 'set default', 'no action', 'CASCADE']
